@@ -254,6 +254,15 @@ def genC14Cases (useLock : Bool) (tier : String) (_seed : Nat) : Array Case := I
     for o in scheds2 do
       out := out.push (schedCase s!"c14-2-{n}" "two-requests" [a, b] o)
       n := n + 1
+  -- lock probes: request a is stopped between taking the lock and converting, request b is
+  -- released from the lock point; the real lock must keep b out until a has finished. Mixed
+  -- tabular/visual pairs included: both pages write the same process-wide switches.
+  if useLock then
+    let probes : List (Nat × Nat) := [(1, 0), (0, 1), (1, 7), (7, 1), (1, 6), (9, 2), (2, 9), (3, 10), (10, 3), (8, 10), (1, 11), (5, 1)]
+    for (ia, ib) in probes do
+      let c := schedCase s!"c14-p{n}" "lock-probe" [cr.getD ia default, cr.getD ib default] [0, 0, 1, 1, 1, 1, 1, 0, 0, 0]
+      out := out.push { c with args := c.args.setObjVal! "probe" (true : Bool) }
+      n := n + 1
   if tier = "thorough" then
     let scheds3 := (interleavings [k, k, k]).filter (fun o => !useLock || feasibleLocked o)
     let triples := [[cr.getD 1 default, cr.getD 0 default, cr.getD 7 default], [cr.getD 8 default, cr.getD 2 default, cr.getD 10 default]]
@@ -268,6 +277,13 @@ def judgeC14 (_c : Case) (o : ObsLine) : Verdict :=
   match o.obs.getObjValAs? String "infeasible" with
   | .ok why => .disagree "schedule predicted feasible by the model is not feasible on the implementation" "feasible" why
   | .error _ =>
+    match o.obs.getObjValAs? String "bypassed" with
+    | .ok how =>
+      if (o.obs.getObjValAs? Bool "allSame").toOption.getD false then
+        .disagree "the implementation's lock does not exclude a second request (the model's lock does)" "second request blocked until the first has finished" how
+      else .violation "a response under this interleaving differs from the response of the same request processed alone"
+            (how ++ " " ++ (o.obs.getObjVal? "res" |>.toOption.getD Json.null).compress)
+    | .error _ =>
     if (o.obs.getObjValAs? Bool "allSame").toOption.getD false then .ok
     else .violation "a response under this interleaving differs from the response of the same request processed alone"
           (o.obs.getObjVal? "res" |>.toOption.getD Json.null).compress
